@@ -252,4 +252,3 @@ func vpClientExchange(tc *testClientConn, rh http.Header, pre, wire []byte, chun
 	}
 	return res, nil
 }
-
